@@ -100,6 +100,7 @@ func policyDir(h *harness) string {
 	if err := os.WriteFile(filepath.Join(dir, "c19.json"), []byte(pd), 0o644); err != nil {
 		h.r.Fatalf("write policy: %v", err)
 	}
+	writeGridPolicies(h, dir)
 	return dir
 }
 
@@ -511,6 +512,7 @@ func httpNode(h *harness) {
 	vpSeeds := []jsonSeed{{"verify-vp-request", jmut.MustParse(`{"verifiablePresentation":` + string(f.ldVP) + `,"verifyCredentials":true}`)}}
 	run(&entry{name: "http.internal.verifier.vp", gen: genJSON(vpSeeds, true, plainWrap),
 		call: func(in input) error { return internalPost("/internal/vcr/v2/verifier/vp", in.data) }})
+	httpGridEntries(h, f, run, vpTree, post, tokenReq, audience)
 	var wg sync.WaitGroup
 	sem := make(chan struct{}, 6)
 	for _, e := range httpEntries {
